@@ -93,6 +93,24 @@ def join_rule(prog, rep, ctx):
                 or any(c.atom[0] == "loop0" for c in p.conds) or any(c.loops for c in p.conds) or any(e.loops for e in p.events):
             continue  # (a walk that skips a pinned cell is inside the merge loop)
         anyc = ("call", ("g", "any"), (("f", SECOND, "_bins", 0),), ())
+        # ... or the receiver's cells are all zero and its array is replaced by a COPY of the operand's (the sum, cell by cell)
+        own_zero = any((not c.truth) and strip_epochs(c.atom) == ("call", ("g", "any"), (("f", SELF, "_bins", 0),), ()) for c in p.conds)
+        reb = [e for e in p.events if e.kind == "setfield" and e.base == SELF and e.name == "_bins"]
+        if reb and own_zero:
+            v_ = strip_epochs(reb[-1].value)
+            sec = ("f", SECOND, "_bins", 0)
+            copy_ = (v_[0] == "slice" and v_[1] == sec and v_[2:] == (C(None), C(None), C(None))) or \
+                (v_[0] == "newb" and v_[1] == "array" and len(v_[3]) == 2 and v_[3][0] == C("i") and v_[3][1] == sec) or \
+                (v_[0] == "call" and v_[1][0] == "m" and v_[1][1] == sec and v_[1][2] in ("__copy__", "copy"))
+            if copy_:
+                seen_plain = True
+                continue
+            if v_ == sec:
+                rep.bad("C12.join-cells", where, "receiver takes over the operand's array",
+                        "join into an all-zero sketch makes the receiver's counters the operand's own array object (no copy): from then on every update of one "
+                        "sketch shows up in the other", reb[-1].where())
+                okc = False
+                break
         if not any((not c.truth) and strip_epochs(c.atom) == anyc for c in p.conds):
             rep.bad("C12.join-cells", where, "return without merging", "join returns normally on a path that merges no cell and has not established that every cell of the operand is zero "
                     "(an element total of 0 does not imply that: additions and removals of different keys cancel in the total only)", f.where(p.exit[2]) if p.exit[2] is not None else f.where())
